@@ -511,7 +511,7 @@ func C03(p *engine.Prog, r *engine.Report) {
 				continue
 			}
 			n++
-			if !engine.OnlyThroughPass(vb, ret.Block(), gs) {
+			if !engine.OnlyThroughPassRet(vb, ret, gs) {
 				okEmpty = false
 			}
 		}
@@ -687,7 +687,7 @@ func c03R3(p *engine.Prog, r *engine.Report, vb *ssa.Function) {
 				if retErrKind(ret) == "nil" {
 					continue
 				}
-				if engine.OnlyThroughPass(ab, ret.Block(), gCommit) {
+				if engine.OnlyThroughPassRet(ab, ret, gCommit) {
 					continue // after a successful commit the block is in; not a rejection
 				}
 				n++
@@ -906,7 +906,7 @@ func c03R6(p *engine.Prog, r *engine.Report, vb *ssa.Function) {
 	ok := len(bodyGuards) > 0
 	var bad []string
 	for _, ret := range successReturns(vb) {
-		if !engine.OnlyThroughPass(vb, ret.Block(), bodyGuards) {
+		if !engine.OnlyThroughPassRet(vb, ret, bodyGuards) {
 			ok = false
 			bad = append(bad, p.InstrPos(ret))
 		}
